@@ -55,6 +55,7 @@ type scenario struct {
 	log      *pubLog
 	histSize int
 	histTTL  time.Duration
+	metaTTL  time.Duration
 	pubSeq   atomic.Int64
 	// per-connection hook configuration
 	mu       sync.Mutex
@@ -79,6 +80,7 @@ func (s *scenario) publish(producer string, tag string) *pubRec {
 	s.log.recs = append(s.log.recs, rec)
 	s.log.mu.Unlock()
 	opts := []centrifuge.PublishOption{centrifuge.WithHistory(s.histSize, s.histTTL)}
+
 	if tag != "" {
 		opts = append(opts, centrifuge.WithTags(map[string]string{"t": tag}))
 	}
@@ -348,6 +350,13 @@ func RunCase(c *kit.Case, opt Options) {
 	nConn := r.Range(1, 3)
 	nPub := r.Range(1, 3)
 	useFilter := r.Chance(1, 3)
+	// epoch reset: a short history meta TTL and a publisher pause longer than it, so
+	// the stream's metadata is discarded and the next publish starts a new epoch
+	epochReset := r.Chance(1, 8)
+	if epochReset {
+		s.histTTL = 2 * time.Second
+		s.metaTTL = 3 * time.Second
+	}
 	removeHistoryAfter := time.Duration(0)
 	if r.Chance(1, 6) {
 		removeHistoryAfter = time.Duration(r.Range(5, 80)) * time.Millisecond
@@ -387,6 +396,9 @@ func RunCase(c *kit.Case, opt Options) {
 		ClientPresenceUpdateInterval:    time.Second,
 		ClientChannelPositionCheckDelay: 2 * time.Second,
 		ClientStaleCloseDelay:           time.Hour,
+	}
+	if s.metaTTL > 0 {
+		cfg.HistoryMetaTTL = s.metaTTL
 	}
 	if useMedium {
 		cfg.GetChannelMediumOptions = func(string) centrifuge.ChannelMediumOptions { return mediumOpts }
@@ -469,6 +481,9 @@ func RunCase(c *kit.Case, opt Options) {
 		gaps := make([]time.Duration, k)
 		for i := range gaps {
 			gaps[i] = time.Duration(r.Range(1, 12)) * time.Millisecond
+		}
+		if epochReset && p == 0 && k > 3 {
+			gaps[k/2] = 6 * time.Second
 		}
 		wg.Add(1)
 		go func(p int) {
